@@ -124,7 +124,7 @@ class Report:
                 cov[k] = max(1, cov.get(k, 0))
         cov['distinct_nontrivial'] = int(distinct_nontrivial)
         cov['rule'] = rule
-        cov['samples'] = self.samples
+        cov['samples'] = self.samples or [{'note': 'no sample recorded (run cut short by violations)'}]
         cov['exhaustive'] = bool(self.exhaustive and not self.unscripted)
         cov['unscripted_draws'] = self.unscripted
         if explanation:
